@@ -91,6 +91,10 @@ func (r *Run) frameItems(env *SpecEnv, fc *FuncContract) []frameItem {
 					}
 				}
 			case ESel:
+				if g := r.qualifiedGhost(env, x); g != nil {
+					items = append(items, frameItem{kind: "ident", key: "ghost|" + g.PkgPath + "::" + g.Name})
+					return
+				}
 				loc := r.evalLoc(env, x)
 				items = append(items, frameItem{kind: "path", loc: loc, T: loc.T})
 				return
